@@ -354,6 +354,50 @@ class PathCtx:
             self.solver.set('timeout', old_to)
         return None
 
+    def refine(self, m):
+        """Incremental linearisation: where the model's value of an exp/log atom is off the
+        true function at the model's argument, add the point (step bounds + tangent) there.
+        Returns the number of points added (0: the model is faithful on these atoms)."""
+        import math
+        from . import poly as P
+        from .explore import _z3_to_float
+        added = 0
+        for kind in ('exp', 'log'):
+            for (idx, arg) in list(self.fun_atoms.get(kind, [])):
+                try:
+                    a = _z3_to_float(m.eval(arg.z3(), model_completion=True))
+                    v = _z3_to_float(m.eval(self.atoms[idx], model_completion=True))
+                except Exception:
+                    continue
+                if kind == 'exp':
+                    if abs(a) > 700:
+                        continue
+                    true = math.exp(a)
+                    if abs(v - true) > 1e-5 * (1 + abs(true)) and P.note_exp_point(a, true, True):
+                        added += 1
+                else:
+                    if a <= 0:
+                        continue
+                    true = math.log(a)
+                    if abs(v - true) > 1e-5 * (1 + abs(true)) and P.note_exp_point(true, a, True):
+                        added += 1
+        return added
+
+    def pins(self, m):
+        """Equalities fixing every input and every uninterpreted-function value to the
+        model's value (the transcendental atoms are then determined up to the axioms' slack)."""
+        from .poly import _rv
+        eqs = []
+        for n, (k, v, lo, hi) in self.inputs.items():
+            try:
+                eqs.append(v == m.eval(v, model_completion=True))
+            except Exception:
+                pass
+        for name, table in getattr(self, 'ufuns', {}).items():
+            for (az, v) in table:
+                eqs.append(v == m.eval(v, model_completion=True))
+        return eqs
+
     def choose(self, k, label=None):
         """Fork over range(k) without a solver variable (a structural choice)."""
         if k <= 0:
